@@ -15,6 +15,7 @@ RULE = ("curves: each segment type and paths of 2-4 mixed segments at scales 1e-
         "exception. Non-trivial = curve is not a single Line and 0<s<L; distinct by (curve, s, config).")
 ASSUMPTIONS = ["'floating-point resolution of L' is read as 1e-9*L (length itself is reproducible only to quadrature accuracy); 1e-4*L for curves whose speed (nearly) vanishes somewhere, where length(0,t) is itself discontinuous at that level",
                "the no-scipy configuration is run on few cases at scales <= 1e2 in the quick tier (about a second per call)"]
+RULE += ' Also: Half of the cases request an explicit tolerance (1e-3..1e-9 of L); paths are also built through edits after queries and may repeat a segment.'   # added after the seeded-change rounds (DESIGN.md section 10)
 CONFIGS = ['scipy', 'noscipy']
 BUDGET = {'quick': {'scipy': 800, 'noscipy': 32}, 'thorough': {'scipy': 20000, 'noscipy': 1200}}
 REQUIRED = ['curve:Q', 'curve:C', 'curve:A', 'curve:path', 's:boundary', 's:outside', 's:interior', 'scale>=1e5', 'requested_s_tol', 'path_edited_after_queries', 'path_with_equal_segments']
